@@ -175,6 +175,11 @@ def record_cli_case(cid, corpora, srcfmt, destfmt, split, filt, mods, seed, orig
                 # second step: back into the source format (A -> B -> A) and on into a third one (A -> B -> C)
                 others = [f_ for f_ in ('export', 'tigerxml', 'discobrackets', 'brackets', 'terminals')
                           if f_ not in (srcfmt, destfmt)]
+                if any(len(T['nodes']) == 1 for Ts in corpora for T in Ts):
+                    # the one-node tree (a single node that is root and token at once) exists in the bracket formats
+                    # only: export and TIGER-XML write the children of a root, they cannot represent it - the third
+                    # format of a chain stays among the formats able to represent the trees, as the property says
+                    others = [f_ for f_ in others if f_ in ('discobrackets', 'brackets', 'terminals')]
                 for tgt, outname in ((srcfmt, 'back.out'), (rnd.choice(others), 'chain.out')):
                     args2 = ['transform', 'dest.out', outname, '--src-format', destfmt, '--dest-format', tgt,
                              '--src-enc', dest_enc, '--dest-enc', 'utf-8', '--src-opts', 'quiet',
